@@ -183,6 +183,43 @@ def gen_events(conv, rng, n_rand, wide):
                 conv.decode_bits(after, {"x": (kind, off, ln)}, out)
                 ev.append({"fn": "decode_blob", "kind": kind, "off": off, "len": ln,
                            "buf": list(after), "out": list(out["x"])})
+    # several blobs of different kinds written by one call, in the order given (the CDB / data layouts of the library
+    # mix them freely); the last one may end exactly at the end of the buffer
+    U = {"b": 1, "w": 2, "dw": 4}
+    for _ in range(max(40, n_rand // 20)):
+        kinds = [rng.choice("b w dw".split()) for _ in range(rng.randint(2, 4))]
+        off, blobs = rng.randint(0, 2), []
+        for k in kinds:
+            ln = rng.randint(1, 3)
+            blobs.append({"kind": k, "off": off, "len": ln, "value": [rng.getrandbits(8) for _ in range(U[k] * ln)]})
+            off += U[k] * ln + rng.randint(0, 2)
+        nbytes = off - rng.choice([0, 0, 1, 2]) if off - 2 >= blobs[-1]["off"] + U[kinds[-1]] * blobs[-1]["len"] else off
+        nbytes = max(nbytes, blobs[-1]["off"] + U[kinds[-1]] * blobs[-1]["len"])
+        before = bytearray(rng.getrandbits(8) for _ in range(nbytes))
+        after = bytearray(before)
+        names = ["x%d" % i for i in range(len(blobs))]
+        order = list(range(len(blobs)))
+        rng.shuffle(order)
+        conv.encode_dict({names[i]: bytearray(blobs[i]["value"]) for i in order},
+                         {names[i]: (blobs[i]["kind"], blobs[i]["off"], blobs[i]["len"]) for i in range(len(blobs))}, after)
+        ev.append({"fn": "encode_blobs", "blobs": [blobs[i] for i in order], "before": list(before), "after": list(after)})
+    # a blob that is the whole buffer (and others): the decoded value and the buffer are two things
+    for kind, unit in (("b", 1), ("w", 2), ("dw", 4)):
+        for ln, off, tail in ((2, 0, 0), (1, 0, 0), (2, 0, 3), (2, 1, 0), (3, 2, 1)):
+            buf = bytearray(rng.getrandbits(8) for _ in range(off + unit * ln + tail))
+            buf0 = list(buf)
+            out = {}
+            conv.decode_bits(buf, {"x": (kind, off, ln)}, out)
+            o = out["x"]
+            o0 = list(o)
+            ev.append({"fn": "decode_blob", "kind": kind, "off": off, "len": ln, "buf": buf0, "out": list(o0)})
+            if isinstance(o, bytearray) and len(o):
+                o[0] ^= 0xFF                          # the caller edits what it got
+                o0[0] ^= 0xFF
+            mid = list(buf)
+            if len(buf):
+                buf[off] ^= 0x0F                      # the buffer is used again
+            ev.append({"fn": "blob_snapshot", "buf": buf0, "buf_now": mid, "out": o0, "out_now": list(o)})
     return ev
 
 
